@@ -125,6 +125,21 @@ def check_obs(dim, eig, n, si, hv):
             exp_c = [[float(np.real(np.trace(rho @ n_op(dim, eig, one, n, i) @ n_op(dim, eig, one, n, j)))) for j in range(n)] for i in range(n)]
             if np.max(np.abs(np.asarray(corr, dtype=complex) - np.asarray(exp_c))) > 1e-9:
                 out.append((f"C20:correlation-matrix:{tag}", f"state {name}, one_state {one}: {corr} vs {exp_c}"))
+        # bitstring probabilities: every basis state contributes to the bitstring it maps to (one_state -> 1, others -> 0)
+        diag = np.real(np.diag(rho))
+        for one in ones:
+            expbp = {}
+            for idx, pr in enumerate(diag):
+                digs = []
+                k = idx
+                for _ in range(n):
+                    digs.append(k % dim)
+                    k //= dim
+                bs = "".join("1" if eig[dg] == one else "0" for dg in reversed(digs))
+                expbp[bs] = expbp.get(bs, 0.0) + float(pr)
+            gotbp = st.bitstring_probabilities(one_state=one, cutoff=0.0)
+            if abs(sum(gotbp.values()) - 1) > 1e-9 or any(abs(gotbp.get(b, 0.0) - v) > 1e-9 for b, v in expbp.items()):
+                out.append((f"C20:bitstring-probabilities:{tag}", f"state {name}, one_state {one}: {dict(gotbp)} vs {expbp}"))
         # fidelity with every pure member of the family, expectation of a non-Hermitian operator
         for nm2, rho2, ket2 in state_family(dim, n):
             if ket2 is None:
